@@ -58,10 +58,27 @@ def _one(nodes, what):
 
 def simple_search(tree):
     fn = find_def(tree, 'SearchTask._simple_search')
-    ifs = [n for n in ast.walk(fn) if isinstance(n, ast.If)
-           and len(n.body) == 1 and isinstance(n.body[0], ast.Expr)
-           and ast.unparse(n.body[0].value) ==
-           'self._flush_results_buffer()']
+
+    def flush_ifs(f):
+        return [n for n in ast.walk(f) if isinstance(n, ast.If)
+                and len(n.body) == 1 and isinstance(n.body[0], ast.Expr)
+                and ast.unparse(n.body[0].value) ==
+                'self._flush_results_buffer()']
+    ifs = flush_ifs(fn)
+    if not ifs:
+        # the append-and-flush block may live in a private helper of the
+        # class that _simple_search calls (one level)
+        for n in ast.walk(fn):
+            if isinstance(n, ast.Call) and \
+                    isinstance(n.func, ast.Attribute) and \
+                    ast.unparse(n.func.value) == 'self' and \
+                    n.func.attr.startswith('_') and \
+                    n.func.attr != '_flush_results_buffer':
+                try:
+                    ifs += flush_ifs(find_def(tree,
+                                              'SearchTask.' + n.func.attr))
+                except Untranslatable:
+                    pass
     test = _one(ifs, "`if ...: self._flush_results_buffer()` in "
                 "_simple_search").test
     tr = Tr(subst={'len(self.results_buffer)':
